@@ -164,6 +164,41 @@ def refusals(v, ctx, bins, classes):
     return n
 
 
+def onto_existing(v, ctx, bins, classes):
+    """the target already exists and is LONGER than what is transferred: nothing of the old file may survive"""
+    n = 0
+    for single in (False, True):
+        pair = Pair(ctx, bins["tftpd"], single, "127.0.0.1", overwrite=True)
+        try:
+            srv, sb, cli = pair.srv, pair.sb, pair.cli
+            common = ["-i", "127.0.0.1", "-p", str(srv.port), "-t", "2"]
+            for bsz, w, old_len, new_len in ((512, 1, 3000, 1000), (1428, 4, 20000, 1428 * 4), (8, 16, 500, 0), (512, 2, 5000, 4999)):
+                for kind in ("download", "upload"):
+                    n += 1
+                    name = f"ex_{kind}_{bsz}_{new_len}.bin"
+                    new = N.keyed_content(f"new-{name}-{single}", new_len)
+                    old = N.keyed_content(f"old-{name}-{single}", old_len)
+                    if kind == "download":
+                        write(os.path.join(sb["srv"], name), new)
+                        write(os.path.join(cli, "dl", name), old)
+                        rc, out, err, dt = run_client(bins["tftpc"], cli, [name, "-d", "-rd", "dl", "-b", str(bsz), "-w", str(w)] + common)
+                        tgt = os.path.join(cli, "dl", name)
+                    else:
+                        write(os.path.join(cli, name), new)
+                        write(os.path.join(sb["srv"], name), old)
+                        rc, out, err, dt = run_client(bins["tftpc"], cli, [name, "-u", "-b", str(bsz), "-w", str(w)] + common)
+                        time.sleep(0.05)
+                        tgt = os.path.join(sb["srv"], name)
+                    got = open(tgt, "rb").read() if os.path.exists(tgt) else None
+                    if got != new:
+                        v.violation(f"C14/onto-existing/{kind}", f"{'single' if single else 'multi'}-port {kind} of {new_len} bytes onto an existing {old_len}-byte file left {None if got is None else len(got)} bytes (blksize {bsz}, windowsize {w}); stderr {err[-120:]!r}",
+                                    {"engine": "net", "kind": kind, "single_port": single, "old_len": old_len, "new_len": new_len, "blksize": bsz, "windowsize": w})
+                    classes["onto-existing-longer"] = classes.get("onto-existing-longer", 0) + 1
+        finally:
+            pair.srv.stop()
+    return n
+
+
 def concurrent_pairs(v, ctx, bins, classes):
     """two bundled clients with different option choices on ONE server at the same time (both port modes)"""
     import threading
@@ -292,6 +327,7 @@ def run(tier):
         for pl in pairs.values():
             for p in pl:
                 p.srv.stop()
+    evaluations += onto_existing(v, ctx, bins, classes)
     evaluations += concurrent_pairs(v, ctx, bins, classes)
     if classes.get("concurrent-pair-overlapped", 0) == 0:
         v.note_inconclusive("no concurrent client pair actually overlapped in time")
